@@ -1,0 +1,27 @@
+//go:build verif
+// +build verif
+
+package onet
+
+// Read-only accessors for the C10 verification harness (/verif/harness/cmd/c10).
+// Compiled only with the "verif" build tag.
+
+// VerifDbFile returns the path of the server's database file.
+func (c *Server) VerifDbFile() string {
+	return c.serviceManager.dbFileName()
+}
+
+// VerifWebSocketStarted reports whether the websocket side is marked started.
+func (c *Server) VerifWebSocketStarted() bool {
+	return c.WebSocket.Listening()
+}
+
+// VerifInstancesTry returns the number of registered instances, or ok=false when
+// the instance table's lock is held (e.g. by a Close that does not return).
+func (o *Overlay) VerifInstancesTry() (n int, ok bool) {
+	if !o.instancesLock.TryLock() {
+		return 0, false
+	}
+	defer o.instancesLock.Unlock()
+	return len(o.instances), true
+}
